@@ -20,6 +20,17 @@ def set_label(label):
     _state["label"] = label
 
 
+def take_failed():
+    """Modules through whose elaboration frames an exception propagated since the last call (innermost first)."""
+    f = _state.get("failed", [])
+    _state["failed"] = []
+    out = []
+    for m in f:
+        if not any(m is x for x in out):
+            out.append(m)
+    return out
+
+
 def in_pass() -> bool:
     return _state["depth"] > 0
 
@@ -99,6 +110,18 @@ def attach(rec) -> None:
             _state["pass"] = prev
 
     base.ElabPass.elaborate = classmethod(elaborate)
+
+    # record the module stack through which an exception propagates (the "offending set" of a failed call)
+    orig_emb = base.ElabPass.elaborate_module_base
+
+    def elaborate_module_base(self, module):
+        try:
+            return orig_emb(self, module)
+        except BaseException:
+            _state.setdefault("failed", []).append(module)
+            raise
+
+    base.ElabPass.elaborate_module_base = elaborate_module_base
 
     orig_add = hmod._add
 
